@@ -16,12 +16,17 @@
                            abstract "registration table + FIFO cache of the last cap generated certificates keyed by
                            (cn, sans)"; `cache_bounded_via_refinement`, `dict_is_cache_and_registrations` are corollaries
   * `first_registered_name_wins` : the lookup order — first registered potential name (CN forms, SAN forms in order, `*`)
+  * `generated_carries_org_of_generating_request` : organization / crl_url are in the certificate, not in the key — a fresh
+                           certificate carries this call's, a cached one those of the get_cert that generated it;
+                           `same_request_same_cert_while_cached` now holds for any organization / crl_url of the repeat
   * `mem_asteriskForms_iff` : asterisk_forms yields exactly the names allowed by the wildcard rule
 -/
 import MitmVerif.Lemmas.C17
 import MitmVerif.Lemmas.C17Refine
 namespace MitmVerif.Props.C17
 open MitmVerif MitmVerif.C17
+
+variable {org crl : Option Bytes}
 
 /-- `n` is a key under which a custom certificate answers the request `(cn, sans)`: a wildcard form of the
     (non-empty) common name or of a DNS SAN, the literal value of a non-DNS SAN, or the catch-all `*`. -/
@@ -83,11 +88,11 @@ theorem generated_le_cap_storeCap (ops : List Op) :
     exactly `(cn, sans)`. -/
 theorem returned_is_custom_matching_or_generated_exact (cap : Nat) (ops : List Op) (ok : Bool)
     (cn : Option Bytes) (sans : List San) (e : Entry)
-    (h : (getCert cap ok (run cap Store.empty ops) cn sans).2.entry? = some e) :
+    (h : (getCert cap ok (run cap Store.empty ops) cn sans org crl).2.entry? = some e) :
     (e.custom = true ∧ ∃ n, MatchesRequest n cn sans ∧ Registered ops n e) ∨
     (e.custom = false ∧ e.cn = cn ∧ e.sans = sans) := by
   have hinv := inv_run (inv_empty cap) ops
-  rcases getCert_cases cap ok (run cap Store.empty ops) cn sans with
+  rcases getCert_cases cap ok (run cap Store.empty ops) cn sans org crl with
     ⟨e', hf, hg⟩ | ⟨_, _, hg⟩ | ⟨_, _, d, rest, _, ⟨_, hg⟩ | ⟨_, hg⟩⟩
   · rw [hg] at h; simp [Res.entry?] at h; subst h
     obtain ⟨k, hk, hl⟩ := firstHit_some hf
@@ -109,19 +114,20 @@ theorem returned_is_custom_matching_or_generated_exact (cap : Nat) (ops : List O
 
 /-- **Stability.** If `get_cert(cn, sans)` returned `e` and afterwards only further `get_cert` calls happened,
     then — as long as `e` is custom or still in the expire queue — the same request returns `e` again (and as a
-    plain hit: nothing is generated). -/
+    plain hit: nothing is generated) — whatever organization / crl_url the repeated request asks for: they are
+    not part of the key. -/
 theorem same_request_same_cert_while_cached (cap : Nat) (ops mid : List Op) (ok ok' : Bool)
-    (cn : Option Bytes) (sans : List San) (e : Entry)
+    (cn : Option Bytes) (sans : List San) (org' crl' : Option Bytes) (e : Entry)
     (hmid : ∀ op ∈ mid, op.isGet = true)
-    (h1 : (getCert cap ok (run cap Store.empty ops) cn sans).2.entry? = some e)
+    (h1 : (getCert cap ok (run cap Store.empty ops) cn sans org crl).2.entry? = some e)
     (hc : e.custom = true ∨
-          e ∈ (run cap (getCert cap ok (run cap Store.empty ops) cn sans).1 mid).queue) :
-    (getCert cap ok' (run cap (getCert cap ok (run cap Store.empty ops) cn sans).1 mid) cn sans).2 = .hit e := by
+          e ∈ (run cap (getCert cap ok (run cap Store.empty ops) cn sans org crl).1 mid).queue) :
+    (getCert cap ok' (run cap (getCert cap ok (run cap Store.empty ops) cn sans org crl).1 mid) cn sans org' crl').2 = .hit e := by
   have hinv := inv_run (inv_empty cap) ops
-  have hinv1 := inv_getCert hinv ok cn sans
+  have hinv1 := inv_getCert (org := org) (crl := crl) hinv ok cn sans
   have hinv2 := inv_run hinv1 mid
   generalize hs : run cap Store.empty ops = s at *
-  generalize hs2 : run cap (getCert cap ok s cn sans).1 mid = s2 at *
+  generalize hs2 : run cap (getCert cap ok s cn sans org crl).1 mid = s2 at *
   -- name keys are the same in s, s1 and s2
   have hnames : ∀ n, lookup (.name n) s2.certs = lookup (.name n) s.certs := by
     intro n
@@ -135,7 +141,7 @@ theorem same_request_same_cert_while_cached (cap : Nat) (ops mid : List Op) (ok 
     subst hk; exact hnames n
   -- it suffices to find `e` as the first hit in s2
   suffices hfirst : firstHit s2.certs (potentialKeys cn sans) = some e by
-    rcases getCert_cases cap ok' s2 cn sans with ⟨e', hf, hg⟩ | ⟨hf, _, _⟩ | ⟨hf, _, _⟩
+    rcases getCert_cases cap ok' s2 cn sans org' crl' with ⟨e', hf, hg⟩ | ⟨hf, _, _⟩ | ⟨hf, _, _⟩
     · rw [hg]; rw [hfirst] at hf; simp at hf; rw [hf]
     · rw [hfirst] at hf; cases hf
     · rw [hfirst] at hf; cases hf
@@ -144,7 +150,7 @@ theorem same_request_same_cert_while_cached (cap : Nat) (ops mid : List Op) (ok 
   cases hname : firstHit s.certs ((potentialNames cn sans).map Key.name) with
   | some e0 =>
     -- served from a name key: the same key still answers
-    rcases getCert_cases cap ok s cn sans with ⟨e', hf, hg⟩ | ⟨hf, _, _⟩ | ⟨hf, _, _⟩
+    rcases getCert_cases cap ok s cn sans org crl with ⟨e', hf, hg⟩ | ⟨hf, _, _⟩ | ⟨hf, _, _⟩
     · simp only [potentialKeys, firstHit_append, hname] at hf
       rw [hg] at h1; simp [Res.entry?] at h1
       simp at hf; rw [← h1, ← hf]
@@ -154,7 +160,7 @@ theorem same_request_same_cert_while_cached (cap : Nat) (ops mid : List Op) (ok 
     -- served from (or generated for) the key (cn, sans): `e` is generated and carries exactly these names
     simp only [firstHit]
     have hgen : e.custom = false ∧ e.cn = cn ∧ e.sans = sans := by
-      rcases getCert_cases cap ok s cn sans with ⟨e', hf, hg⟩ | ⟨_, _, hg⟩ | ⟨_, _, d, rest, _, ⟨_, hg⟩ | ⟨_, hg⟩⟩
+      rcases getCert_cases cap ok s cn sans org crl with ⟨e', hf, hg⟩ | ⟨_, _, hg⟩ | ⟨_, _, d, rest, _, ⟨_, hg⟩ | ⟨_, hg⟩⟩
       · simp only [potentialKeys, firstHit_append, hname, firstHit] at hf
         rw [hg] at h1; simp [Res.entry?] at h1; subst h1
         split at hf
@@ -210,6 +216,40 @@ theorem fifo_eviction (cap : Nat) (ops : List Op) :
     | name n => simp only at hc; rw [hc] at hg; cases hg
     | gen cn sans => exact hnq hc.2.2.2
 
+/-! ### organization and crl_url: in the certificate, not in the key -/
+
+/-- **Organization / CRL.** What `get_cert(cn, sans, organization, crl_url)` returns after any history, if it is a
+    generated certificate: one generated by THIS call carries exactly this call's organization and crl_url; a cached
+    one carries the organization and crl_url of the `get_cert` of the history that generated it (same cn and sans —
+    possibly a different organization: they are not part of the key). -/
+theorem generated_carries_org_of_generating_request (cap : Nat) (ops : List Op) (ok : Bool)
+    (cn : Option Bytes) (sans : List San) (org crl : Option Bytes) (e : Entry) :
+    ((getCert cap ok (run cap Store.empty ops) cn sans org crl).2 = .fresh e → e.org = org ∧ e.crl = crl) ∧
+    ((getCert cap ok (run cap Store.empty ops) cn sans org crl).2 = .hit e → e.custom = false →
+      e.cn = cn ∧ e.sans = sans ∧ GeneratedBy ops e) := by
+  have hinv := inv_run (inv_empty cap) ops
+  rcases getCert_cases cap ok (run cap Store.empty ops) cn sans org crl with
+    ⟨e', hf, hg⟩ | ⟨_, _, hg⟩ | ⟨_, _, d, rest, _, ⟨_, hg⟩ | ⟨_, hg⟩⟩
+  · rw [hg]
+    refine ⟨fun h => by simp at h, ?_⟩
+    intro h hc
+    simp at h; subst h
+    obtain ⟨k, hk, hl⟩ := firstHit_some hf
+    have hc' := hinv.1.certs_ok k e' (lookup_mem hl)
+    simp only [potentialKeys, List.mem_append, List.mem_map, List.mem_singleton] at hk
+    rcases hk with ⟨n, _, hk⟩ | hk
+    · subst hk; simp only at hc'; rw [hc'] at hc; cases hc
+    · subst hk
+      refine ⟨hc'.2.1, hc'.2.2.1, ?_⟩
+      rcases gen_run cap ops Store.empty (fun _ => False) (by simp [Store.empty]) e' hc'.2.2.2 with h1 | h1
+      · exact h1.elim
+      · exact h1
+  · rw [hg]; exact ⟨fun h => by simp at h, fun h => by simp at h⟩
+  · rw [hg]; refine ⟨?_, fun h => by simp at h⟩
+    intro h; simp at h; subst h; simp [freshEntry]
+  · rw [hg]; refine ⟨?_, fun h => by simp at h⟩
+    intro h; simp at h; subst h; simp [freshEntry]
+
 /-! ### refinement: the store IS a registration table plus a bounded FIFO cache keyed by (cn, sans) -/
 
 /-- **Refinement.** For every capacity and every history, the real store (dict + expire queue, `expire` rebuilding
@@ -243,7 +283,7 @@ theorem first_registered_name_wins (cap : Nat) (ok : Bool) (s : Store) (cn : Opt
     (hsplit : potentialNames cn sans = pre ++ n :: post)
     (hpre : ∀ m ∈ pre, lookup (.name m) s.certs = none)
     (hn : lookup (.name n) s.certs = some e) :
-    getCert cap ok s cn sans = (s, .hit e) := by
+    getCert cap ok s cn sans org crl = (s, .hit e) := by
   have hfirst : firstHit s.certs (potentialKeys cn sans) = some e := by
     simp only [potentialKeys, hsplit, List.map_append, List.map_cons, List.append_assoc, firstHit_append]
     have hp : firstHit s.certs (pre.map Key.name) = none := by
@@ -254,7 +294,7 @@ theorem first_registered_name_wins (cap : Nat) (ok : Bool) (s : Store) (cn : Opt
         simp only [List.map_cons, firstHit, hpre m (by simp)]
         exact ih (fun x hx => hpre x (List.mem_cons_of_mem _ hx))
     simp only [hp, List.cons_append, firstHit, hn]
-  rcases getCert_cases cap ok s cn sans with ⟨e', hf, hg⟩ | ⟨hf, _, _⟩ | ⟨hf, _, _⟩
+  rcases getCert_cases cap ok s cn sans org crl with ⟨e', hf, hg⟩ | ⟨hf, _, _⟩ | ⟨hf, _, _⟩
   · rw [hfirst] at hf; simp at hf; rw [hg, hf]
   · rw [hfirst] at hf; cases hf
   · rw [hfirst] at hf; cases hf
@@ -262,31 +302,35 @@ theorem first_registered_name_wins (cap : Nat) (ok : Bool) (s : Store) (cn : Opt
 /-! ### non-vacuity: the hypotheses are satisfiable and the model is not constant -/
 
 private def sanA : San := ⟨0, [0x61, dot, 0x62]⟩          -- DNS:a.b
-private def reqA : Op := .get true none [sanA]
-private def reqB : Op := .get true (some [0x63]) []
+private def reqA : Op := .get true none [sanA] (some [0x4f]) none     -- organization "O"
+private def reqB : Op := .get true (some [0x63]) [] none none
 private def reg : Op := .add 7 none [] [[star, dot, 0x62]]   -- custom cert 7 registered as "*.b"
 
 -- capacity 1: the second generation evicts the first
 example : (run 1 Store.empty [reqA, reqB]).queue.map (·.id) = [1] := by decide
 example : (gens 1 Store.empty [reqA, reqB, reqA]).map (·.id) = [0, 1, 2] := by decide
 -- a cached request is a hit, a custom registration under "*.b" takes over for a.b
-example : (getCert 2 true (run 2 Store.empty [reqA, reqB]) none [sanA]).2 = .hit ⟨false, 0, none, [sanA]⟩ := by decide
-example : (getCert 2 true (run 2 Store.empty [reqA, reg]) none [sanA]).2 = .hit ⟨true, 7, none, []⟩ := by decide
-example : Registered [reqA, reg] [star, dot, 0x62] ⟨true, 7, none, []⟩ :=
+example : (getCert 2 true (run 2 Store.empty [reqA, reqB]) none [sanA] none none).2 = .hit ⟨false, 0, none, [sanA], some [0x4f], none⟩ := by decide
+example : (getCert 2 true (run 2 Store.empty [reqA, reg]) none [sanA] none none).2 = .hit ⟨true, 7, none, [], none, none⟩ := by decide
+example : Registered [reqA, reg] [star, dot, 0x62] ⟨true, 7, none, [], none, none⟩ :=
   ⟨7, none, [], [[star, dot, 0x62]], by simp [reg], rfl, by simp [addKeys]⟩
 example : MatchesRequest [star, dot, 0x62] none [sanA] :=
   Or.inr (Or.inl ⟨sanA, by simp, Or.inl ⟨rfl, Or.inr ⟨[0x61], [0x62], rfl, rfl⟩⟩⟩)
 -- lookup order: exact name before its wildcard before "*" (potential names of SAN a.b: a.b, *.b, *)
 example : potentialNames none [sanA] = [[0x61, dot, 0x62], [star, dot, 0x62], [star]] := by decide
 example : (getCert 2 true (run 2 Store.empty [.add 1 none [] [[star]], .add 2 none [] [[star, dot, 0x62]], .add 3 none [] [[0x61, dot, 0x62]]])
-    none [sanA]).2 = .hit ⟨true, 3, none, []⟩ := by decide
-example : (getCert 2 true (run 2 Store.empty [.add 1 none [] [[star]], .add 2 none [] [[star, dot, 0x62]]]) none [sanA]).2
-    = .hit ⟨true, 2, none, []⟩ := by decide
+    none [sanA] none none).2 = .hit ⟨true, 3, none, [], none, none⟩ := by decide
+example : (getCert 2 true (run 2 Store.empty [.add 1 none [] [[star]], .add 2 none [] [[star, dot, 0x62]]]) none [sanA] none none).2
+    = .hit ⟨true, 2, none, [], none, none⟩ := by decide
 -- the abstract and the real machine agree on a concrete history (and it is not a constant trace)
 example : trace 1 Store.empty [reqA, reqB, reqA, reg, reqA] =
-    [some (.fresh ⟨false, 0, none, [sanA]⟩), some (.fresh ⟨false, 1, some [0x63], []⟩), some (.fresh ⟨false, 2, none, [sanA]⟩),
-     none, some (.hit ⟨true, 7, none, []⟩)] := by decide
+    [some (.fresh ⟨false, 0, none, [sanA], some [0x4f], none⟩), some (.fresh ⟨false, 1, some [0x63], [], none, none⟩),
+     some (.fresh ⟨false, 2, none, [sanA], some [0x4f], none⟩), none, some (.hit ⟨true, 7, none, [], none, none⟩)] := by decide
+-- organization is not part of the key: asking again with another organization returns the cached "O" certificate
+example : (getCert 2 true (run 2 Store.empty [reqA]) none [sanA] (some [0x58]) (some [0x75])).2
+    = .hit ⟨false, 0, none, [sanA], some [0x4f], none⟩ := by decide
+example : GeneratedBy [reqA] ⟨false, 0, none, [sanA], some [0x4f], none⟩ := ⟨true, by simp [reqA]⟩
 -- dummy_cert failing leaves the store unchanged
-example : (getCert 2 false Store.empty (some []) []).2 = .err := by decide
+example : (getCert 2 false Store.empty (some []) [] none none).2 = .err := by decide
 
 end MitmVerif.Props.C17
